@@ -92,6 +92,13 @@ class Session:
 def run(repo: Repo, sim: str, symbols=("AAA-USDT", "BBB-USDT"), minutes=6, timeframe="3m", step=None, data_symbols=(), light=False) -> Session:
     """light=True: long sessions for rules about WHEN things happen (sampling): the candle cells are not distinguished and the gap
     normalisation is the identity"""
+    # the functions that are replaced by recorders are the anchors of this engine: if one of them is gone (renamed, merged into its
+    # caller) the session cannot be observed - an analysis error, never a verdict
+    for anchor in (sim, "_simulate_price_change_effect" if sim == "_step_simulator" else "_simulate_price_change_effect_multiple_candles", "_get_fixed_jumped_candle"):
+        if not repo.has_func(BT, anchor):
+            raise AnalysisError(f"{BT}: anchor function {anchor} not found")
+    if not repo.has_func("jesse/services/candle.py", "generate_candle_from_one_minutes") or not repo.has_func("jesse/modes/utils.py", "save_daily_portfolio_balance"):
+        raise AnalysisError("anchor function generate_candle_from_one_minutes / save_daily_portfolio_balance not found")
     events: List[Tuple] = []
     candles = make_candles(tuple(symbols) + tuple(data_symbols), minutes, light)
     stubs = W.base_stubs()
